@@ -38,6 +38,7 @@ type Case struct {
 	Type   string  `json:"type"`
 	Field  string  `json:"field"`
 	Kind   string  `json:"kind"`
+	R1     int     `json:"r1"` // last contents row the field touches (-1: unknown / open-ended); record draws buffer sizes from r1+1 on
 	Groups []Group `json:"groups"`
 }
 
@@ -336,6 +337,10 @@ func record(in, out string, n int) {
 		L := g.L + rng.Intn(2)*rng.Intn(4)
 		if b.buf == nil {
 			L = g.L
+		} else if c.R1 >= 0 && rng.Intn(4) == 0 {
+			// every size from "the field's last row is just present" upwards: an accessor of an optional trailing octet works as
+			// soon as that octet exists, whatever else follows
+			L = c.R1 + 1 + rng.Intn(maxInt(1, g.L-c.R1+3))
 		} else if b.len16 != nil && rng.Intn(6) == 0 {
 			// elements with a two-octet length hold more than 255 octets: sizes around the one-octet boundary and beyond
 			L = []int{254, 255, 256, 257, 258, 300, 511, 512, 513, 1000, 4096}[rng.Intn(11)]
@@ -358,6 +363,9 @@ func record(in, out string, n int) {
 		}
 		if b.len16 != nil {
 			p.Len = fill()<<8 | fill()
+		}
+		if (b.len8 != nil || b.len16 != nil) && rng.Intn(3) == 0 {
+			p.Len = rng.Intn(20) // the small values a length really takes
 		}
 		for j := range p.Oct {
 			p.Oct[j] = fill()
